@@ -27,7 +27,7 @@ CONSTANTS
                  \* forced flattening is reached at small scale)
     DevF7,       \* deviation: emptied flatten keeps the old chain (finding F7)
     DevStaleStamp \* deviation: an item may be put with an OLDER clock than the chain's (before
-                 \* fix 31dd09b Meta.LayeredOnto stamped a committed table info with the clock
+                 \* fix 62705c7 Meta.LayeredOnto stamped a committed table info with the clock
                  \* of the transaction's snapshot)
 
 TOMB == -1                  \* value of a tombstone entry
@@ -145,7 +145,7 @@ Put(k, v) == /\ ~(cur[k].v = v /\ cur[k].lm = c.clock)
              /\ cur' = MPut(cur, k, v, c.clock)
              /\ UNCHANGED <<c, file, next, lastOff, persisted, nw, nr>>
 
-\* transaction commit before fix 31dd09b: the entry is put (same or new content) with the
+\* transaction commit before fix 62705c7: the entry is put (same or new content) with the
 \* clock the transaction saw when it began
 PutStale(k, v) == /\ DevStaleStamp /\ c.clock > 0
                   /\ \E lm \in 0..(c.clock - 1) :
